@@ -7,6 +7,8 @@ import calendar
 import datetime
 import os
 
+import numpy as np
+
 import common
 
 RATES = [(10 ** 8, 7), (10 ** 9, 7), (10 ** 6, 3), (200, 3), (25 * 10 ** 6, 3), (1, 1), (100, 1)]
@@ -121,6 +123,7 @@ def run_config(res, n, d, fc, sc, ks, queries, stats):
         rd_early = None
     i = 0
     unsorted_call = {}
+    call_form = {}
     while i < len(ks):
         m = rng.choice([1, 1, 2, 3, 5])
         chunk = ks[i:i + m]
@@ -136,12 +139,28 @@ def run_config(res, n, d, fc, sc, ks, queries, stats):
             for x in chunk:
                 unsorted_call[x] = list(chunk)
             res.count("write:call-not-ascending")
+        # the form of the index list: Python ints, a list that MIXES numpy unsigned scalars with Python ints (what
+        # `[reader_bound, k]` is in a caller's code), a uint64 array, a list of numpy scalars
+        form = rng.randrange(5)
+        sarg = chunk
+        if form == 1 and len(chunk) >= 2:
+            sarg = [np.uint64(c) if t % 2 == 0 else c for t, c in enumerate(chunk)]
+        elif form == 2:
+            sarg = np.array(chunk, dtype=np.uint64)
+        elif form == 3:
+            sarg = [np.uint64(c) for c in chunk]
+        if form in (1, 2, 3):
+            res.count("write:index-list-form-%d" % form)
+            if len(chunk) >= 2:
+                for x in chunk:
+                    unsorted_call.setdefault(x, list(chunk))
+                    call_form[x] = form
         if len(chunk) == 1 and rng.random() < 0.5:
-            w.write(chunk[0], {"v": i})
+            w.write(chunk[0] if form != 3 else np.uint64(chunk[0]), {"v": i})
         elif rng.random() < 0.5:
-            w.write(chunk, {"v": vals})
+            w.write(sarg, {"v": vals})
         else:
-            w.write(chunk, [{"v": v} for v in vals])
+            w.write(sarg, [{"v": v} for v in vals])
         i += len(chunk)
     where, files = walk_samples(top)
     fileset = set(files)
@@ -177,6 +196,7 @@ def run_config(res, n, d, fc, sc, ks, queries, stats):
         inp = dict(cfgi, k=k, others=[x for x in ks[max(0, t - 2):t + 3] if x != k])
         if k in unsorted_call:
             inp["call"] = unsorted_call[k]
+            inp["call_form"] = call_form.get(k, 0)
         if got != [exp]:
             sig = "writer-file-not-exact" if [g.split("/")[1] for g in got] != [exp.split("/")[1]] \
                 else "subdir-not-exact"
@@ -536,8 +556,17 @@ def replay(res, rp):
     ks = sorted(set([k] + list(i.get("others", [])) + list(i.get("written", []))))
     call = [int(x) for x in i.get("call") or []]
     if call:
-        print("written in ONE call, in this order:", call)
-        w.write(call, {"v": list(range(len(call)))})
+        cf = i.get("call_form", 0)
+        carg = call
+        if cf == 1:
+            carg = [np.uint64(c) if t % 2 == 0 else c for t, c in enumerate(call)]
+        elif cf == 2:
+            carg = np.array(call, dtype=np.uint64)
+        elif cf == 3:
+            carg = [np.uint64(c) for c in call]
+        print("written in ONE call, in this order:", call, {0: "(Python ints)", 1: "(numpy uint64 scalars and Python ints mixed)",
+                                                              2: "(a uint64 array)", 3: "(a list of numpy uint64 scalars)"}[cf])
+        w.write(carg, {"v": list(range(len(call)))})
     for x in ks:
         if x not in call:
             w.write(x, {"v": 1})
